@@ -243,10 +243,50 @@ def gen_case(rng, tier, index):
     return case
 
 
+def gen_aligned_gap(rng):
+    """lists of different lengths that *look* aligned: a compact ListOffsetArray with offsets o and a ListArray with
+    gaps whose starts equal o[:-1] and whose last stop equals o[-1], one of its lists shorter (the statement: lists of
+    different lengths at the same position raise)"""
+    from vlib import model
+    n = rng.randint(2, 5)
+    lens = [rng.randint(0, 4) for _ in range(n)]
+    cand = [i for i in range(n - 1) if lens[i] >= 1]
+    if not cand:
+        lens[0] = rng.randint(1, 4)
+        cand = [0]
+    d1, d2 = rng.choice(["int64", "int32", "float64"]), rng.choice(["int64", "int32", "float64"])
+    base = [[rng.randint(-3, 5) for _ in range(k)] for k in lens]
+    offs = [0]
+    for k in lens:
+        offs.append(offs[-1] + k)
+    lens2 = list(lens)
+    for i in rng.sample(cand, rng.randint(1, len(cand))):
+        lens2[i] = rng.randint(0, lens[i] - 1)
+    flat2 = [rng.randint(-3, 5) for _ in range(offs[-1])]
+    gap = [flat2[offs[i]:offs[i] + lens2[i]] for i in range(n)]
+    w1, w2 = rng.choice(["64", "32"]), rng.choice(["64", "32", "U32"])
+    kind = {"64": "i64", "32": "i32", "U32": "u32"}
+    T1 = {"t": "list", "e": gen.P(d1)}
+    T2 = {"t": "list", "e": gen.P(d2)}
+    lay1 = {"c": "ListOffsetArray", "w": w1, "offsets": {"k": kind[w1], "v": offs}, "params": {},
+            "content": model.np_desc(np.array([x for r in base for x in r], dtype=d1))}
+    lay2 = {"c": "ListArray", "w": w2, "starts": {"k": kind[w2], "v": offs[:-1]},
+            "stops": {"k": kind[w2], "v": [offs[i] + lens2[i] for i in range(n)]}, "params": {},
+            "content": model.np_desc(np.array(flat2, dtype=d2))}
+    args = [{"k": "a", "T": T1, "vals": enc(base), "layout": lay1, "how": "base"},
+            {"k": "a", "T": T2, "vals": enc(gap), "layout": lay2, "how": "aligned-gap"}]
+    if rng.random() < 0.3:
+        args.reverse()
+    op = rng.choice(["add", "multiply", "op+", "broadcast_arrays", "maximum"])
+    return {"op": op, "regime": "var", "args": args, "broken": True}
+
+
 def _gen_case(rng, tier, index):
     regime = ["regular", "var", "var", "mixed"][(index // 3) % 4]
     if regime == "regular":
         return gen_regular_case(rng, tier)
+    if regime == "var" and rng.random() < 0.06:
+        return gen_aligned_gap(rng)
     cfg = gen.Cfg(tier)
     cfg.strings = False
     cfg.unknown = False
